@@ -626,7 +626,9 @@ pub fn history(tr: &mut Tracer, w: &mut World, rng: &mut Rng, p: &Profile) {
                 if target > now { tr.step(w, &Op::Block { dt: target - now, dh: 1 + rng.below(3) }); }
             }
             let who = *rng.pick(&[ID_OWNER, STRANGER, t]);
-            tr.step(w, &Op::Eng { sender: who, funds: 0, m: EMsg::PayFunding { vamm: v } });
+            // on native collateral a trader sometimes attaches coins to the call (they may only end up with the engine)
+            let funds = if w.d.native && who == t && rng.chance(1, 4) { 1 + rng.below(1_000_000) as u128 } else { 0 };
+            tr.step(w, &Op::Eng { sender: who, funds, m: EMsg::PayFunding { vamm: v } });
         } else if take(p.w_block) {
             let dt = match rng.below(6) { 0 => 0, 1 => 1, 2 => 5 + rng.below(60), 3 => 900, 4 => 3600 + rng.below(100), _ => rng.below(2000) };
             let dh = match rng.below(4) { 0 => 0, _ => 1 + rng.below(3) };
@@ -884,7 +886,14 @@ pub fn history(tr: &mut Tracer, w: &mut World, rng: &mut Rng, p: &Profile) {
                        if rng.chance(1, 2) { tr.step(w, &Op::Vamm { sender: t, v, m: VMsg::SwapIn { dir, q: d, lim: 0, cgo: false } }); }
                        else { tr.step(w, &Op::Vamm { sender: t, v, m: VMsg::SwapOut { dir, b: d / 10 + 1, lim: 0 } }); } }
                 7 => { let who = if rng.chance(1, 2) { ID_OWNER } else { t }; tr.step(w, &Op::If { sender: who, m: IMsg::Withdraw(d) }); }
-                8 => { if w.d.native { let op = Op::Eng { sender: t, funds: d / 2, m: EMsg::Open { vamm: v, side: Side::Buy, margin: d, lev: d, limit: 0 } }; tr.step(w, &op); }
+                8 => { if w.d.native && rng.chance(1, 2) {
+                           // collateral attached to calls that do not expect any: it may only end up with the engine
+                           let f = 1 + rng.below(1000) as u128 + if rng.chance(1, 2) { d } else { 0 };
+                           let m = match rng.below(5) { 0 => EMsg::PayFunding { vamm: v }, 1 => EMsg::Liq { vamm: v, trader: *rng.pick(&TRADERS), limit: 0 },
+                                                        2 => EMsg::Withdraw { vamm: v, amt: d / 100 + 1 }, 3 => EMsg::Close { vamm: v, limit: 0 }, _ => EMsg::SetPause(false) };
+                           let who = if matches!(m, EMsg::SetPause(_)) { ID_OWNER } else { t };
+                           tr.step(w, &Op::Eng { sender: who, funds: f, m });
+                       } else if w.d.native { let op = Op::Eng { sender: t, funds: d / 2, m: EMsg::Open { vamm: v, side: Side::Buy, margin: d, lev: d, limit: 0 } }; tr.step(w, &op); }
                        else { tr.step(w, &Op::Eng { sender: STRANGER, funds: 0, m: EMsg::Open { vamm: v, side: Side::Buy, margin: d, lev: d, limit: 0 } }); } }
                 _ => { tr.step(w, &Op::Eng { sender: t, funds: 0, m: EMsg::Withdraw { vamm: v, amt: d * 1_000_000 } }); }
             }
